@@ -573,11 +573,87 @@ func (tb *TB) quant(op string, vars []*Term, body *Term, pats [][]*Term) *Term {
 	if body.IsTrue() || body.IsFalse() {
 		return body
 	}
+	// prenex: (forall x (=> A (forall y B))) == (forall x y (=> A B)) when y is not free in A (bound names are unique);
+	// solvers instantiate one multi-variable quantifier far more reliably than nested ones.
+	if op == "forall" && len(pats) == 0 {
+		// distribute over conjunctions: (forall x (and A B)) == (and (forall x A) (forall x B)),
+		// (forall x (=> G (and A B))) == (and (forall x (=> G A)) (forall x (=> G B)))
+		if body.Op == "and" {
+			var cs []*Term
+			for _, c := range body.Args {
+				cs = append(cs, tb.quant(op, vars, c, nil))
+			}
+			return tb.And(cs...)
+		}
+		if body.Op == "=>" && body.Args[1].Op == "and" {
+			var cs []*Term
+			for _, c := range body.Args[1].Args {
+				cs = append(cs, tb.quant(op, vars, tb.Implies(body.Args[0], c), nil))
+			}
+			return tb.And(cs...)
+		}
+		for {
+			if body.Op == "forall" && len(body.Pats) == 0 {
+				vars = append(append([]*Term{}, vars...), body.Vars...)
+				body = body.Args[0]
+				continue
+			}
+			if body.Op == "=>" && body.Args[1].Op == "forall" && len(body.Args[1].Pats) == 0 {
+				inner := body.Args[1]
+				vars = append(append([]*Term{}, vars...), inner.Vars...)
+				g := body.Args[0]
+				ib := inner.Args[0]
+				if ib.Op == "=>" {
+					body = tb.Implies(tb.And(g, ib.Args[0]), ib.Args[1])
+				} else {
+					body = tb.Implies(g, ib)
+				}
+				if body.Op == "=>" && body.Args[1].Op == "and" {
+					return tb.quant(op, vars, body, nil)
+				}
+				continue
+			}
+			break
+		}
+		// drop variables that no longer occur
+		vars = usedVars(vars, body)
+		if len(vars) == 0 {
+			return body
+		}
+	}
 	t := tb.intern(&Term{Op: op, Args: []*Term{body}, Vars: vars, Pats: pats, Sort: SBool})
 	// A quantified term is closed w.r.t. its own variables; it is "Bound" only if it
 	// mentions variables bound further out.
 	t.Bound = tb.freeBound(t)
 	return t
+}
+
+// usedVars keeps the bound variables that occur in body.
+func usedVars(vars []*Term, body *Term) []*Term {
+	occ := map[*Term]bool{}
+	seen := map[*Term]bool{}
+	var walk func(x *Term)
+	walk = func(x *Term) {
+		if !x.Bound || seen[x] {
+			return
+		}
+		seen[x] = true
+		if x.Op == "bound" {
+			occ[x] = true
+			return
+		}
+		for _, a := range x.Args {
+			walk(a)
+		}
+	}
+	walk(body)
+	var out []*Term
+	for _, v := range vars {
+		if occ[v] {
+			out = append(out, v)
+		}
+	}
+	return out
 }
 
 func (tb *TB) freeBound(t *Term) bool {
